@@ -10,8 +10,6 @@ structure Lim where
   /-- `u64`/`usize` values (delays, source ids, list lengths) must be below this -/
   uMax : Nat
 
-/-- where the unchanged code is lossless -/
-def small : Lim := ⟨4096, 2 ^ 60⟩
 /-- what the Rust types allow (`usize::MAX` long strings, full `u64`) -/
 def typeLim : Lim := ⟨2 ^ 64, 2 ^ 64⟩
 
@@ -57,15 +55,15 @@ end
 @[simp] theorem bytesOf_append (a b : List Op) : bytesOf (a ++ b) = bytesOf a ++ bytesOf b := by
   simp [bytesOf]
 
-theorem wfStr_small {s : Str} (h : wfStr small s = true) : s.length < 4096 ∧ validUtf8 s = true := by
-  simp only [wfStr, small, Bool.and_eq_true] at h
+theorem wfStr_lim {s : Str} (h : wfStr typeLim s = true) : s.length < 2 ^ 64 ∧ validUtf8 s = true := by
+  simp only [wfStr, typeLim, Bool.and_eq_true] at h
   exact ⟨of_decide_eq_true h.1, h.2⟩
 
-theorem Reads.wstr {s : Str} (h : wfStr small s = true) : Reads pStr (Op.str s).bytes s :=
-  Reads.str s (wfStr_small h).1 (wfStr_small h).2
+theorem Reads.wstr {s : Str} (h : wfStr typeLim s = true) : Reads pStr (Op.str s).bytes s :=
+  Reads.str s (wfStr_lim h).1 (wfStr_lim h).2
 
-theorem Reads.wuint {v : Nat} (h : wfU small v = true) : Reads pUInt (uintOp v).bytes v :=
-  Reads.uint v (by simp only [wfU, small] at h; exact of_decide_eq_true h)
+theorem Reads.wuint {v : Nat} (h : wfU typeLim v = true) : Reads pUInt (uintOp v).bytes v :=
+  Reads.uint v (by simp only [wfU, typeLim] at h; exact of_decide_eq_true h)
 
 def pairReader (fuel : Nat) : Prog (Str × Data) := do
   let k ← pStr
@@ -99,7 +97,7 @@ theorem readDataF_succ (fuel : Nat) : readDataF (fuel + 1) = (pU8 >>= fun what =
     | _ => do pFail; pure .null) := rfl
 
 mutual
-  theorem reads_data (d : Data) (fuel : Nat) (hw : wfData small d = true) (hf : d.depth ≤ fuel) :
+  theorem reads_data (d : Data) (fuel : Nat) (hw : wfData typeLim d = true) (hf : d.depth ≤ fuel) :
       Reads (readDataF fuel) (bytesOf (opsData d)) d := by
     cases fuel with
     | zero => cases d <;> simp [Data.depth] at hf
@@ -147,7 +145,7 @@ mutual
         simp only [Data.depth] at hf
         refine Reads.bind (Reads.u8 6 (by omega)) (Reads.bind (Reads.wuint hw.1) ?_)
         exact Reads.bind_pure (reads_dataMap l fuel hw.2 (by omega)) rfl
-  theorem reads_dataList (l : List Data) (fuel : Nat) (hw : wfDataList small l = true)
+  theorem reads_dataList (l : List Data) (fuel : Nat) (hw : wfDataList typeLim l = true)
       (hf : depthList l ≤ fuel) :
       Reads (readN l.length (readDataF fuel)) (bytesOf (opsDataList l)) l := by
     cases l with
@@ -158,7 +156,7 @@ mutual
       simp only [opsDataList, bytesOf_append]
       show Reads (readDataF fuel >>= fun a => readN r.length (readDataF fuel) >>= fun r' => Pure.pure (a :: r')) _ _
       exact Reads.bind (reads_data d fuel hw.1 (by omega)) (Reads.bind_pure (reads_dataList r fuel hw.2 (by omega)) rfl)
-  theorem reads_dataMap (l : List (Str × Data)) (fuel : Nat) (hw : wfDataMap small l = true)
+  theorem reads_dataMap (l : List (Str × Data)) (fuel : Nat) (hw : wfDataMap typeLim l = true)
       (hf : depthMap l ≤ fuel) :
       Reads (readN l.length (pairReader fuel)) (bytesOf (opsDataMap l)) l := by
     cases l with
@@ -176,7 +174,7 @@ mutual
 end
 
 /-- `read_data` on the bytes of `write_data(d)` followed by anything -/
-theorem Reads.data {d : Data} (hw : wfData small d = true) (hf : d.depth ≤ dataFuel) :
+theorem Reads.data {d : Data} (hw : wfData typeLim d = true) (hf : d.depth ≤ dataFuel) :
     Reads readData (bytesOf (opsData d)) d :=
   reads_data d dataFuel hw hf
 
